@@ -149,13 +149,23 @@ func assertASTIsVarAssignBlock(ast *syntax.Program) ([]*syntax.VarAssignExpr, bo
 // 令销量 = 300
 // 输出客单价 * 销量  ->  8400
 func ExecVarInputText(source string) (r.ElementMap, error) {
-	vm := r.InitVM(NewGlobalValues())
+	vm := newInputTextVM()
 
 	return evalVarAssignBlockText(vm, source)
 }
 
-func ExecExpressionInputText(exprStrMap map[string]string) (r.ElementMap, error) {
+// newInputTextVM - a VM for evaluating input texts: they are evaluated like statements of
+// a (bodiless) main module, so that a name that is not defined, or 其 / 此 outside any
+// object, is reported as an error instead of dereferencing a missing scope / call frame
+func newInputTextVM() *r.VM {
 	vm := r.InitVM(NewGlobalValues())
+	module := vm.AllocateModule(MODULE_NAME_MAIN, nil)
+	vm.PushCallFrame(r.NewScriptCallFrame(module))
+	return vm
+}
+
+func ExecExpressionInputText(exprStrMap map[string]string) (r.ElementMap, error) {
+	vm := newInputTextVM()
 	result := make(map[string]r.Element)
 	// evaluate in sorted key order so that the first reported error is reproducible
 	keys := make([]string, 0, len(exprStrMap))
